@@ -197,12 +197,14 @@ type DFSResult struct {
 	Unstable            int            `json:"unstable"`
 	Truncated           int            `json:"truncated"`
 	Diverged            int            `json:"diverged"`
+	Repeats             int            `json:"repeats"`
 	MaxPoints           int            `json:"max_points"`
 	Exhaustive          bool           `json:"exhaustive"`
 	Violations          []Violation    `json:"violations"`
 	Samples             [][]string     `json:"samples"`
 	ByDeviation         map[int]int    `json:"by_deviation"`
 	InconclusiveReasons map[string]int `json:"inconclusive_reasons,omitempty"`
+	UnstableSigs        map[string]int `json:"unstable_sigs,omitempty"`
 }
 
 func (r *DFSResult) merge(o DFSResult) {
@@ -212,6 +214,7 @@ func (r *DFSResult) merge(o DFSResult) {
 	r.Unstable += o.Unstable
 	r.Truncated += o.Truncated
 	r.Diverged += o.Diverged
+	r.Repeats += o.Repeats
 	if o.MaxPoints > r.MaxPoints {
 		r.MaxPoints = o.MaxPoints
 	}
@@ -221,6 +224,12 @@ func (r *DFSResult) merge(o DFSResult) {
 	}
 	for k, v := range o.ByDeviation {
 		r.ByDeviation[k] += v
+	}
+	for k, v := range o.UnstableSigs {
+		if r.UnstableSigs == nil {
+			r.UnstableSigs = map[string]int{}
+		}
+		r.UnstableSigs[k] += v
 	}
 	for k, v := range o.InconclusiveReasons {
 		if r.InconclusiveReasons == nil {
@@ -322,6 +331,12 @@ func (e *explorer) account(x *X) {
 		r.Samples = append(r.Samples, append([]string{}, x.notes...))
 	}
 	if x.fail != nil {
+		for _, v := range r.Violations {
+			if v.Sig == x.fail.Sig && v.Cost <= d {
+				r.Repeats++
+				return // already confirmed with a case that is at least as simple
+			}
+		}
 		// believe a failure only if the same choices fail the same way every time
 		stable := true
 		for i := 0; i < e.cfg.Confirm; i++ {
@@ -333,6 +348,10 @@ func (e *explorer) account(x *X) {
 		}
 		if !stable {
 			r.Unstable++
+			if r.UnstableSigs == nil {
+				r.UnstableSigs = map[string]int{}
+			}
+			r.UnstableSigs[x.fail.Sig]++
 			r.Exhaustive = false
 			return
 		}
@@ -615,8 +634,12 @@ func (t *DFSTotals) Fill(rep *Report, rule string, bound int) {
 		c["inconclusive_reasons"] = t.R.InconclusiveReasons
 	}
 	c["unstable"] = t.R.Unstable
+	if len(t.R.UnstableSigs) > 0 {
+		c["unstable_signatures"] = t.R.UnstableSigs
+	}
 	c["truncated_at_horizon"] = t.R.Truncated
 	c["diverged_prefixes"] = t.R.Diverged
+	c["further_cases_of_reported_violations"] = t.R.Repeats
 	c["max_choice_points"] = t.R.MaxPoints
 	c["exhaustive"] = t.R.Exhaustive
 	c["deviation_bound_completed"] = bound
